@@ -2,6 +2,7 @@
 Oracle: RefSeq/RefMap/RefStr (vf/ref_seq.py) replayed on a shadow pool with the same aliasing; the script logs the
 result and the whole pool after every step, so effects through every alias and on failing calls are observed."""
 import json
+import math
 import random
 import re
 import urllib.parse
@@ -17,6 +18,7 @@ def plan(tier, seed):
     n = 9600 if tier == 'quick' else 240000
     specs = [{'part': 'histories', 'n': n // nsh, 'shard': sh, 'nops': 30} for sh in range(nsh)]
     specs.append({'part': 'escapes', 'n': 400 if tier == 'quick' else 20000, 'shard': 0})
+    specs.append({'part': 'comparators', 'n': 300 if tier == 'quick' else 20000, 'shard': 1})
     return specs
 
 
@@ -360,8 +362,45 @@ def run_escapes(spec, acc, api):
     acc.sample({'regexEscape_example': ['a.b*', lib['regexEscape'](['a.b*'], None)], 'urlEncode_example': ['a b/ü', lib['urlEncode'](['a b/ü'], None)]}, limit=1)
 
 
+COMPARATORS = {
+    'a - b': lambda a, b: a - b,
+    'b - a': lambda a, b: b - a,
+    '(a - b) * 0.5': lambda a, b: (a - b) * 0.5,
+    '(a - b) / 8': lambda a, b: (a - b) / 8,
+    'systemCompare(a, b)': lambda a, b: (a > b) - (a < b),
+    'if(a < b, 0 - 0.25, if(a > b, 0.25, 0))': lambda a, b: -0.25 if a < b else (0.25 if a > b else 0),
+    'mathFloor(a) - mathFloor(b)': lambda a, b: math.floor(a) - math.floor(b),
+}
+
+
+def run_comparators(spec, acc, api):
+    """arraySort with a script comparison function: the array itself (seen through an alias) ends up ordered by the sign of
+    the comparator's result, stably; fractional results count."""
+    import functools
+    bare_script, lib = api
+    rnd = random.Random(spec['seed'] * 7919 + 131)
+    for _ in range(spec['n']):
+        expr, pyf = rnd.choice(sorted(COMPARATORS.items()))
+        vals = [rnd.choice([1, 2, 3, 1.5, 1.25, 1.75, 2.5, 0.5, 0.25, 10, 1.125]) for _ in range(rnd.randint(2, 9))]
+        text = (f"function cmpf(a, b):\n    return {expr}\nendfunction\narr = arrayNew({', '.join(lit(v) for v in vals)})\nalias = arr\n"
+                "res = arraySort(arr, cmpf)\nreturn arrayNew(res, alias, arr)")
+        acc.case(text, True)
+        try:
+            got = bare_script.execute_script(bare_script.parse_script(text), {'globals': {}})
+        except Exception as exc:  # pylint: disable=broad-except
+            acc.violation('comparator-sort-raised', f'{type(exc).__name__}: {exc}\n{text}', {'text': text})
+            continue
+        want = sorted(vals, key=functools.cmp_to_key(lambda a, b: (pyf(a, b) > 0) - (pyf(a, b) < 0)))
+        if not (isinstance(got, list) and all(jeq(x, want) for x in got)):
+            acc.violation('comparator-sort', f'{expr!r} on {vals!r}: result/alias/array = {got!r}, expected {want!r}', {'text': text})
+        acc.count('comparator_sorts')
+
+
 def run_shard(spec, acc):
     api = _api()
+    if spec['part'] == 'comparators':
+        run_comparators(spec, acc, api)
+        return
     if spec['part'] == 'histories':
         run_histories(spec, acc, api)
     else:
